@@ -60,6 +60,9 @@ type RTEnv struct {
 	conns  []*RTConn
 	// FailDial makes dial number >= FailDial fail (0: never)
 	FailDial int
+	// HangDial makes dial number >= HangDial reach a server that accepts the connection and never says a word (0: never)
+	HangDial int
+	hung     []*fakeconn.Conn
 	dials    int
 	Settings []wire.Setting
 	// OnFrame, if set before the first dial, is called from each connection's reader goroutine for every
@@ -88,10 +91,17 @@ func NewRTEnvWith(caseID string, opts http2.ClientOpts, serverSettings []wire.Se
 		e.mu.Lock()
 		e.dials++
 		n := e.dials
-		fd := e.FailDial
+		fd, hd := e.FailDial, e.HangDial
 		e.mu.Unlock()
 		if fd != 0 && n >= fd {
 			return nil, &net.OpError{Op: "dial", Net: "fake", Err: net.ErrClosed}
+		}
+		if hd != 0 && n >= hd {
+			cli, srv := fakeconn.Pair(4<<20, 4<<20)
+			e.mu.Lock()
+			e.hung = append(e.hung, srv)
+			e.mu.Unlock()
+			return cli, nil
 		}
 		capS, capC := e.CapToServer, e.CapToClient
 		if capS == 0 {
@@ -162,5 +172,31 @@ func (e *RTEnv) Close() {
 	e.mu.Unlock()
 	for _, c := range cs {
 		c.Raw.Close()
+	}
+	e.ReleaseHung()
+}
+
+// SetHangDial sets HangDial while the client is running.
+func (e *RTEnv) SetHangDial(n int) {
+	e.mu.Lock()
+	e.HangDial = n
+	e.mu.Unlock()
+}
+
+// Dials returns how many times the client has dialled.
+func (e *RTEnv) Dials() int {
+	e.mu.Lock()
+	defer e.mu.Unlock()
+	return e.dials
+}
+
+// ReleaseHung disconnects the silent servers of HangDial.
+func (e *RTEnv) ReleaseHung() {
+	e.mu.Lock()
+	hs := e.hung
+	e.hung = nil
+	e.mu.Unlock()
+	for _, h := range hs {
+		h.Close()
 	}
 }
